@@ -356,6 +356,9 @@ int svalue_to_int (svalue_t * v) {
 }
 
 int msameval (svalue_t * arg1, svalue_t * arg2) {
+  /* keys of different types are different keys (0 and 0.0 share their bit pattern) */
+  if (arg1->type != arg2->type)
+    return 0;
   switch (arg1->type | arg2->type)
     {
     case T_NUMBER:
